@@ -28,6 +28,36 @@ pub const LIB_EXPONENTS: [f32; 17] = [
     3.0,
 ];
 
+pub const POW_BASES: [f32; 18] = [1.1754944e-38, 2.3509887e-38, 0.5, 0.25, 2.0, 4.0, 1.7014118e38, 1.0, -1.0, -2.0, -0.5, -1.1754944e-38, -3.0, 3.0, 0.0, -0.0, 1e-40, 8.0];
+pub const POW_EXPONENTS: [f32; 26] = [
+    2147483648.0,
+    -2147483648.0,
+    2147483520.0,
+    -2147483520.0,
+    4294967296.0,
+    -4294967296.0,
+    16777216.0,
+    -16777216.0,
+    16777215.0,
+    3e7,
+    -3e7,
+    1e9,
+    -1e9,
+    16.0,
+    -16.0,
+    17.0,
+    -17.0,
+    15.0,
+    2.0,
+    -2.0,
+    3.0,
+    1.0,
+    -1.0,
+    65536.0,
+    -65537.0,
+    1e30,
+];
+
 fn powf_budget(y: f32) -> f64 {
     2.5e-4 + 8e-6 * (y.abs() as f64)
 }
@@ -346,6 +376,20 @@ pub fn c18(ctx: &Ctx) {
             }
         }
     }
+    // exponents that are integers of every size (up to +-2^31 and beyond) against bases that are powers of two, negative, tiny, huge
+    for &x in POW_BASES.iter() {
+        for &y in POW_EXPONENTS.iter() {
+            tot_calls += 1;
+            match ev::guarded(|| powf(x, y)) {
+                Ok(_) => nonpanic += 1,
+                Err(msg) => ev::violation(
+                    format!("C18|totality|powf|{}", ev::panic_site(&msg)),
+                    format!("powf({x:e}, {y:e}) panicked: {msg}"),
+                    J::obj().set("kind", "totality").set("fn", "powf").set("x_bits", x.to_bits()).set("y_bits", y.to_bits()),
+                ),
+            }
+        }
+    }
     // powf over the full special x special grid
     for &x in SPECIALS.iter().chain(crate::gen::nan_payloads().iter()) {
         for &y in SPECIALS.iter().chain(crate::gen::nan_payloads().iter()) {
@@ -403,6 +447,11 @@ fn miri_part(ctx: &Ctx) {
     }
     for &x in &sp {
         for &y in &[f32::NAN, f32::INFINITY, f32::NEG_INFINITY, 0.0, -0.0, 80.0, -80.0, 1e30, 0.45, 78.84375] {
+            args.push((x, y));
+        }
+    }
+    for &x in POW_BASES.iter() {
+        for &y in POW_EXPONENTS.iter() {
             args.push((x, y));
         }
     }
